@@ -24,19 +24,22 @@ class Boom(Exception):
     pass
 
 
-def run_shape(shape, trace):
-    """shape: nested list program; 'o' = a library call (may fail), 'x' = raise inside; ['...'] = a context"""
+def run_shape(shape, trace, depth=0, inside=None):
+    """shape: nested list program; 'o' = a library call (may fail), 'x' = raise inside; ['...'] = a context.
+    `inside`: list collecting, for every library call made within at least one active context, whether it was refused"""
     for el in shape:
         if el == 'o':
-            call(DLISFile, set_identifier='lower case id')      # fails in the mode, fine outside; never touches the flag
+            st_, _ = call(DLISFile, set_identifier='lower case id')      # fails in the mode, fine outside; never touches the flag
             trace.append(('o', global_config.high_compat_mode))
+            if inside is not None and depth > 0:
+                inside.append((depth, st_ != 'ok', global_config.high_compat_mode))
         elif el == 'x':
             raise Boom()
         elif isinstance(el, tuple) and el[0] == 'dec':
             @high_compatibility_mode_decorator
             def f():
                 trace.append(('e', global_config.high_compat_mode))
-                run_shape(el[1], trace)
+                run_shape(el[1], trace, depth + 1, inside)
             try:
                 f()
             finally:
@@ -45,7 +48,7 @@ def run_shape(shape, trace):
             try:
                 with high_compatibility_mode():
                     trace.append(('e', global_config.high_compat_mode))
-                    run_shape(el, trace)
+                    run_shape(el, trace, depth + 1, inside)
             except Boom:
                 trace.append(('l', global_config.high_compat_mode))
                 trace.append(('caught', None))
@@ -264,11 +267,19 @@ def run(tier):
             shape = gen_shape(R, 0)
             before = global_config.high_compat_mode
             trace = []
+            inside = []
             try:
-                run_shape(shape, trace)
+                run_shape(shape, trace, 0, inside)
             except Boom:
                 trace.append(('escaped', None))
             after = global_config.high_compat_mode
+            if not before:
+                for (dep, refused, flag) in inside:
+                    if not refused or not flag:
+                        chk.fail('context:restriction-off-inside-active-scope', {'shape': repr(shape)},
+                                 f'a library call made inside {dep} active high-compatibility scope(s) (after an exception left an '
+                                 f'inner one) was {"refused" if refused else "accepted"} with the mode flag {flag}')
+                        break
             ops = ''.join(t[0] for t in trace if t[0] in 'elo')
             flags = ''.join('1' if t[1] else '0' for t in trace if t[0] in 'elo')
             case = {'shape': repr(shape), 'trace': ops}
